@@ -22,20 +22,24 @@ def fracNanos (v : Num) : Int :=
 /-- `float64(sec) + float64(nsec)/1e9` -/
 def secondsFloat (sec nsec : Int) : Num := fadd (roundInt sec) (fdiv (roundInt nsec) f1e9)
 
-/-- `epochToArray(v, time.UTC)`; `none` outside |v| ≤ 2^53 (and for NaN/±Inf) -/
-def epochToArray? (v : Num) : Option JV :=
+/-- the instant `epochToArray` hands to `time.Unix`: `s := math.Floor(v)` seconds and
+    `int64((v-s)*1e9)` nanoseconds, normalised by `time.Unix` into `[0, 1e9)` nanoseconds;
+    `none` outside |v| ≤ 2^53 (and for NaN/±Inf) -/
+def epochParts? (v : Num) : Option (Int × Int) :=
   match v with
   | .nan | .inf _ | .int _ => none
   | v =>
     let q : Rat := (v.toRat?).getD 0
     if q < -(two53 : Rat) ∨ (two53 : Rat) < q then none else
     let ns0 := fracNanos v
-    -- time.Unix normalises nsec into [0, 1e9)
-    let sec := truncRat q + ns0 / 1000000000
-    let ns := ns0 % 1000000000
-    let b := Calendar.gmtime sec
-    some (.arr [jvInt b.year, jvInt b.month0, jvInt b.day, jvInt b.hour, jvInt b.minute,
-                .num (secondsFloat b.second ns), jvInt b.weekday, jvInt b.yearday])
+    some (q.floor + ns0 / 1000000000, ns0 % 1000000000)
+
+/-- `epochToArray(v, time.UTC)` -/
+def epochToArray? (v : Num) : Option JV :=
+  (epochParts? v).map fun p =>
+    let b := Calendar.gmtime p.1
+    .arr [jvInt b.year, jvInt b.month0, jvInt b.day, jvInt b.hour, jvInt b.minute,
+          .num (secondsFloat b.second p.2), jvInt b.weekday, jvInt b.yearday]
 
 def funcGmtime (v : JV) : NRes :=
   match v with
